@@ -111,7 +111,14 @@ def run(tier, seed):
         acases, ameta = [], {}
         cid = 0
         for tname, t in b.mod.types.items():
-            for v in b.gen.values(t, 2 if quick else 4):
+            vals = b.gen.values(t, 2 if quick else 4)
+            k_ = kind_of.get(tname)
+            if k_ == "GeneralizedTime":
+                # local time without zone designator, fractions, explicit offsets: the conversion paths that go through libc
+                vals += ["20351231235959", "20351231235959.25", "19991231235959+0130", "2035123123", "203512312359-0800"]
+            elif k_ == "UTCTime":
+                vals += ["351231235959", "3512312359", "351231235959+0130", "9912312359-0800"]
+            for v in vals:
                 ref = harness.ref_der(b, t, v)
                 if ref is None or len(ref) > 4000:
                     continue
